@@ -39,7 +39,7 @@ func validateRequestWithPAR(
 	}
 
 	if ctx.PARAllowUnregisteredRedirectURI && session.RedirectURI != "" {
-		c.RedirectURIs = append(c.RedirectURIs, session.RedirectURI)
+		c = clientWithRedirectURI(c, session.RedirectURI)
 	}
 
 	return validateInWithOutParams(ctx, session.AuthorizationParameters,
@@ -142,7 +142,7 @@ func validatePushedRequest(
 	}
 
 	if ctx.PARAllowUnregisteredRedirectURI && req.RedirectURI != "" {
-		c.RedirectURIs = append(c.RedirectURIs, req.RedirectURI)
+		c = clientWithRedirectURI(c, req.RedirectURI)
 	}
 
 	if ctx.Profile.IsFAPI() {
@@ -625,6 +625,16 @@ func validateIDTokenHintAsOptional(
 	}
 
 	return nil
+}
+
+// clientWithRedirectURI returns a copy of the client that also accepts the
+// redirect URI informed.
+// The client itself is never changed, as it may be shared with the storage and
+// the redirect URI must only be accepted for the current request.
+func clientWithRedirectURI(c *goidc.Client, redirectURI string) *goidc.Client {
+	clientCopy := *c
+	clientCopy.RedirectURIs = append(slices.Clone(c.RedirectURIs), redirectURI)
+	return &clientCopy
 }
 
 func isRedirectURIAllowed(c *goidc.Client, redirectURI string) bool {
